@@ -36,6 +36,10 @@ class MinMaxValue(GenericValue):
         return self._file._value_to_code(self._new_value)
 
     def _get_changes(self) -> Iterator[Change]:
+        if self._new_value is undefined:
+            # no value could be recorded (UsageError in clone)
+            return
+
         new_token = value_to_token(self._new_value)
         if not self.cmp(self._old_value, self._new_value):
             flag = "fix"
